@@ -23,8 +23,10 @@
    - F-C16c: a response that cannot be decoded, and an ADD_PROVIDER message received as a
      "response", register a response failure for the owning query;
    - F-C16d: on_connection_established records the substreams it opens in pending_substreams.
-   Logical time: all next_action calls happen at time 0 with an unreachable peer timeout (the
-   staleness rule of FIND_NODE is C15's subject). *)
+   Logical time: the state carries a clock `now`; `ETick d` lets d time units pass; every
+   next_action call of the drain loop happens at the current time, and a FIND_NODE-type lookup does
+   not count a pending peer that is older than the peer timeout `g_tmo` towards the parallelism
+   factor (the staleness rule of C15's model, now inside the composition). *)
 From Coq Require Import List NArith Bool.
 From V.C15 Require Model.
 Import ListNotations.
@@ -95,22 +97,25 @@ Record st := mkSt {
   futs : list fut;
   nsid : N;                                 (* TransportService::next_substream_id *)
   conn : list (N * bool);                   (* service connections; true = command channel alive *)
-  mgr : list (N * N)                        (* manager: absent/0 no address, 1 dialable, 2 connected, 3 dialing *)
+  mgr : list (N * N);                       (* manager: absent/0 no address, 1 dialable, 2 connected, 3 dialing *)
+  now : N                                   (* the clock *)
 }.
 
-Definition st0 (m : list (N * N)) : st := mkSt [] [] [] [] [] 0 [] m.
+Definition st0 (m : list (N * N)) : st := mkSt [] [] [] [] [] 0 [] m 0.
 
-Definition w_eng (s : st) x := mkSt x (peers s) (psub s) (pdial s) (futs s) (nsid s) (conn s) (mgr s).
-Definition w_peers (s : st) x := mkSt (eng s) x (psub s) (pdial s) (futs s) (nsid s) (conn s) (mgr s).
-Definition w_psub (s : st) x := mkSt (eng s) (peers s) x (pdial s) (futs s) (nsid s) (conn s) (mgr s).
-Definition w_pdial (s : st) x := mkSt (eng s) (peers s) (psub s) x (futs s) (nsid s) (conn s) (mgr s).
-Definition w_futs (s : st) x := mkSt (eng s) (peers s) (psub s) (pdial s) x (nsid s) (conn s) (mgr s).
-Definition w_nsid (s : st) x := mkSt (eng s) (peers s) (psub s) (pdial s) (futs s) x (conn s) (mgr s).
-Definition w_conn (s : st) x := mkSt (eng s) (peers s) (psub s) (pdial s) (futs s) (nsid s) x (mgr s).
-Definition w_mgr (s : st) x := mkSt (eng s) (peers s) (psub s) (pdial s) (futs s) (nsid s) (conn s) x.
+Definition w_eng (s : st) x := mkSt x (peers s) (psub s) (pdial s) (futs s) (nsid s) (conn s) (mgr s) (now s).
+Definition w_peers (s : st) x := mkSt (eng s) x (psub s) (pdial s) (futs s) (nsid s) (conn s) (mgr s) (now s).
+Definition w_psub (s : st) x := mkSt (eng s) (peers s) x (pdial s) (futs s) (nsid s) (conn s) (mgr s) (now s).
+Definition w_pdial (s : st) x := mkSt (eng s) (peers s) (psub s) x (futs s) (nsid s) (conn s) (mgr s) (now s).
+Definition w_futs (s : st) x := mkSt (eng s) (peers s) (psub s) (pdial s) x (nsid s) (conn s) (mgr s) (now s).
+Definition w_nsid (s : st) x := mkSt (eng s) (peers s) (psub s) (pdial s) (futs s) x (conn s) (mgr s) (now s).
+Definition w_conn (s : st) x := mkSt (eng s) (peers s) (psub s) (pdial s) (futs s) (nsid s) x (mgr s) (now s).
+Definition w_mgr (s : st) x := mkSt (eng s) (peers s) (psub s) (pdial s) (futs s) (nsid s) (conn s) x (now s).
+Definition w_now (s : st) x := mkSt (eng s) (peers s) (psub s) (pdial s) (futs s) (nsid s) (conn s) (mgr s) x.
 
 (* static configuration of the node *)
-Record gcfg := mkG { g_k : N; g_alpha : N; g_local : N }.
+(* replication factor, parallelism factor, local peer, peer timeout of FIND_NODE-type lookups *)
+Record gcfg := mkG { g_k : N; g_alpha : N; g_local : N; g_tmo : N }.
 
 Definition BIG : N := 1000000000.
 
@@ -248,7 +253,7 @@ Definition serve (s : st) (q : N) : st * list out * bool :=
   match aget q (eng s) with
   | None => (s, [], false)
   | Some (QLookup lk qr c ls) =>
-      let '(ls', a) := V.C15.Model.next_action c ls 0 in
+      let '(ls', a) := V.C15.Model.next_action c ls (now s) in
       match a with
       | V.C15.Model.ANone => (s, [], false)
       | V.C15.Model.ASend p =>
@@ -277,13 +282,13 @@ Definition serve (s : st) (q : N) : st * list out * bool :=
   end.
 
 (* does next_action yield something for this query? *)
-Definition has_action (x : qstate) : bool :=
+Definition has_action (t : N) (x : qstate) : bool :=
   match x with
-  | QLookup _ _ c ls => match snd (V.C15.Model.next_action c ls 0) with V.C15.Model.ANone => false | _ => true end
+  | QLookup _ _ c ls => match snd (V.C15.Model.next_action c ls t) with V.C15.Model.ANone => false | _ => true end
   | QToPeers _ _ => true
   | QTrack _ pd _ _ => match pd with [] => true | _ => false end
   end.
-Definition quiescent (s : st) : bool := forallb (fun x => negb (has_action (snd x))) (eng s).
+Definition quiescent (s : st) : bool := forallb (fun x => negb (has_action (now s) (snd x))) (eng s).
 
 (* ---- service events ---- *)
 Definition on_connection_established (s : st) (p : N) : st :=
@@ -422,12 +427,13 @@ Definition on_future (g : gcfg) (s : st) (id : N) (r : fres) : st * list out :=
 (* ---- user commands ---- *)
 Inductive cmd :=
 | CFindNode | CPutRecord (qr : quorum) | CStartProviding (qr : quorum)
-| CGetRecord (qr : quorum) (local : bool) | CGetProviders.
+| CGetRecord (qr : quorum) (local : bool) | CGetProviders
+| CRefresh (qr : quorum).      (* MemoryStoreAction::RefreshProvider: the store republishes a local provider *)
 
 Definition LOCAL_REC : N := 77.                  (* record id of the locally stored record *)
 
 Definition lcfg (g : gcfg) (kd : V.C15.Model.kind) (needed known : N) (dists : list N) : V.C15.Model.cfg :=
-  V.C15.Model.mkCfg kd (g_k g) (g_alpha g) BIG (g_local g) needed known []
+  V.C15.Model.mkCfg kd (g_k g) (g_alpha g) (g_tmo g) (g_local g) needed known []
           (fun p => nth (N.to_nat p) dists (BIG + p)).
 
 Definition start_lookup (g : gcfg) (s : st) (q : N) (lk : lkind) (qr : quorum) (c : V.C15.Model.cfg)
@@ -438,7 +444,8 @@ Definition on_cmd (g : gcfg) (s : st) (q : N) (c : cmd) (dists seeds : list N) :
   match c with
   | CFindNode => (start_lookup g s q LFind QOne (lcfg g V.C15.Model.KFind 0 0 dists) seeds, [])
   | CPutRecord qr => (start_lookup g s q LPut qr (lcfg g V.C15.Model.KFind 0 0 dists) seeds, [])
-  | CStartProviding qr => (start_lookup g s q LProv qr (lcfg g V.C15.Model.KFind 0 0 dists) seeds, [])
+  | CStartProviding qr | CRefresh qr =>
+      (start_lookup g s q LProv qr (lcfg g V.C15.Model.KFind 0 0 dists) seeds, [])
   | CGetProviders => (start_lookup g s q LGetProv QOne (lcfg g V.C15.Model.KProviders 0 0 dists) seeds, [])
   | CGetRecord qr local =>
       match qr, local with
@@ -465,7 +472,8 @@ Inductive ev :=
 | EOpenFail (sid : N)
 | EDialFail (p : N)
 | EInbound (p id : N)
-| EFut (id : N) (r : fres).
+| EFut (id : N) (r : fres)
+| ETick (d : N).                                    (* d time units pass *)
 
 Definition is_serve (e : ev) : bool := match e with EServe _ => true | _ => false end.
 
@@ -498,6 +506,7 @@ Definition step (g : gcfg) (s : st) (e : ev) : st * list out * bool :=
   | EDialFail p => (on_dial_failure s p, [], quiescent s)
   | EInbound p id => (on_inbound_substream s p id, [], quiescent s)
   | EFut id r => let '(s', o) := on_future g s id r in (s', o, quiescent s)
+  | ETick d => (w_now s (now s + d), [], quiescent s)
   end.
 
 Fixpoint run (g : gcfg) (s : st) (es : list ev) : st * list out :=
@@ -576,6 +585,7 @@ Definition quorum_of_ev (q : N) (e : ev) : option quorum :=
   match e with
   | ECmd q' (CPutRecord qr) _ _ => if q' =? q then Some qr else None
   | ECmd q' (CStartProviding qr) _ _ => if q' =? q then Some qr else None
+  | ECmd q' (CRefresh qr) _ _ => if q' =? q then Some qr else None
   | EPutToPeers q' qr _ => if q' =? q then Some qr else None
   | _ => None
   end.
@@ -615,3 +625,153 @@ Definition qweight (x : qstate) : nat :=
   | QTrack _ _ _ _ => 1%nat
   end.
 Definition qw (o : option qstate) : nat := match o with Some x => qweight x | None => 0%nat end.
+
+(* ---- counting obligations: (kind, query, peer) ---- *)
+Definition act_is (k : bool) (q : N) (a : pact) : bool := Bool.eqb (find_act a) k && (a_q a =? q).
+Definition fut_for (k : bool) (q p : N) (f : fut) : bool :=
+  fut_is k f && opt_is (f_q f) q && (f_peer f =? p).
+Definition cnt_dial (s : st) (k : bool) (q p : N) : nat :=
+  match aget p (pdial s) with Some acts => length (filter (act_is k q) acts) | None => 0%nat end.
+Definition cnt_sub (s : st) (k : bool) (q p : N) : nat :=
+  match aget p (peers s) with
+  | Some acts => length (filter (fun x : N * pact => act_is k q (snd x)) acts)
+  | None => 0%nat
+  end.
+Definition cnt_fut (s : st) (k : bool) (q p : N) : nat := length (filter (fut_for k q p) (futs s)).
+Definition cnt (s : st) (k : bool) (q p : N) : nat :=
+  (cnt_dial s k q p + cnt_sub s k q p + cnt_fut s k q p)%nat.
+
+(* completed sends of the send phase only: futures created for SendPutValue / SendAddProvider *)
+Definition put_sent_by (s : st) (e : ev) : list (N * N) :=
+  match e with
+  | EFut id r =>
+      match find_fut id (futs s) with
+      | Some f => if res_ok (f_kind f) r && sent_res r && fut_is false f
+                  then match f_q f with Some q => [(q, f_peer f)] | None => [] end
+                  else []
+      | None => []
+      end
+  | _ => []
+  end.
+Fixpoint put_sends (g : gcfg) (s : st) (es : list ev) : list (N * N) :=
+  match es with
+  | [] => []
+  | e :: t => put_sent_by s e ++ put_sends g (fst (fst (step g s e))) t
+  end.
+
+(* well-formed commands: the routing table never hands out the local peer, and
+   put_record_to_peers is not given the same peer twice *)
+Definition cmd_ok (g : gcfg) (e : ev) : Prop :=
+  match e with
+  | ECmd _ _ _ seeds => ~ In (g_local g) seeds
+  | EPutToPeers _ _ ps => NoDup ps
+  | _ => True
+  end.
+
+(* ---- fairness vocabulary ---- *)
+(* events that give the node new work *)
+Definition is_input (e : ev) : bool :=
+  match e with ECmd _ _ _ _ | EPutToPeers _ _ _ | EInbound _ _ => true | _ => false end.
+
+(* the event answers something that is owed: the drain loop serves a query that has an action; the
+   environment delivers the result of a queued dial, of a pending substream, of an executor future *)
+Definition productive (s : st) (e : ev) : Prop :=
+  match e with
+  | EServe q => snd (serve s q) = true
+  | EEstablished p _ =>
+      aget p (conn s) = None /\ aget p (peers s) = None /\ exists a acts, aget p (pdial s) = Some (a :: acts)
+  | EDialFail p => exists a acts, aget p (pdial s) = Some (a :: acts)
+  | EOpened p sid => exists acts a, aget p (peers s) = Some acts /\ aget sid acts = Some a
+  | EOpenFail sid =>
+      exists p acts a, aget sid (psub s) = Some p /\ aget p (peers s) = Some acts /\ aget sid acts = Some a
+  | EFut id r => exists f, find_fut id (futs s) = Some f /\ res_ok (f_kind f) r = true
+  | _ => False
+  end.
+
+Definition is_tick (e : ev) : bool := match e with ETick _ => true | _ => false end.
+Definition work (es : list ev) : list ev := filter (fun e => negb (is_tick e)) es.
+
+(* a schedule without new work in which every event is productive, or time passing *)
+Fixpoint fair_run (g : gcfg) (s : st) (es : list ev) : Prop :=
+  match es with
+  | [] => True
+  | e :: t => is_input e = false /\ (is_tick e = true \/ productive s e) /\ fair_run g (fst (fst (step g s e))) t
+  end.
+
+(* nothing productive is enabled any more *)
+Definition stuck (s : st) : Prop := forall e, ~ productive s e.
+
+(* the explicit bound: what each piece of new work may cost in later productive events
+   (n = size of the peer universe, k = replication factor) *)
+Definition budget1 (n : nat) (g : gcfg) (e : ev) : nat :=
+  match e with
+  | ECmd _ _ _ _ => (10 * n + 5 * N.to_nat (g_k g) + 2)%nat
+  | EPutToPeers _ _ ps => (5 * length ps + 2)%nat
+  | EInbound _ _ => 2%nat
+  | _ => 0%nat
+  end.
+Fixpoint budget (n : nat) (g : gcfg) (es : list ev) : nat :=
+  match es with [] => 0%nat | e :: t => (budget1 n g e + budget n g t)%nat end.
+
+(* ---- the bounded event channel: `event_tx.send(..).await` inside the handlers ---- *)
+(* The handlers of the loop are sequential code with await points at every `event_tx.send`.  When the
+   channel to the KademliaHandle is full the loop parks there: no further event of `select!` is
+   taken and the drain loop does not continue until the user receives.  Seen from outside this is
+   the atomic handler of `step` followed by a delayed, in-order delivery of its events. *)
+Record bst := mkB {
+  b_st : st;
+  b_chan : list out;        (* in the channel, oldest first *)
+  b_back : list out         (* produced by the handler that is parked, not yet sent *)
+}.
+
+Inductive bev :=
+| BEv (e : ev)              (* the loop takes an event (possible only when it is not parked) *)
+| BRecv.                    (* the user receives one event *)
+
+Definition is_event (o : out) : bool := match o with OTrack _ _ => false | _ => true end.
+
+Fixpoint refill (room : nat) (chan back : list out) : list out * list out :=
+  match room, back with
+  | S r, o :: t => refill r (chan ++ [o]) t
+  | _, _ => (chan, back)
+  end.
+Definition push (cap : nat) (chan back : list out) : list out * list out :=
+  refill (cap - length chan) chan back.
+
+(* result: new state, what the user received, "the event was taken / consistent" *)
+Definition bstep (g : gcfg) (cap : nat) (b : bst) (e : bev) : bst * list out * bool :=
+  match e with
+  | BRecv =>
+      match b_chan b with
+      | [] => (b, [], true)
+      | o :: t => let '(c', k') := push cap t (b_back b) in (mkB (b_st b) c' k', [o], true)
+      end
+  | BEv e =>
+      match b_back b with
+      | [] => let '(s', o, ok) := step g (b_st b) e in
+              let '(c', k') := push cap (b_chan b) (filter is_event o) in
+              (mkB s' c' k', [], ok)
+      | _ :: _ => (b, [], false)
+      end
+  end.
+
+Fixpoint brun (g : gcfg) (cap : nat) (b : bst) (es : list bev) : bst * list out :=
+  match es with
+  | [] => (b, [])
+  | e :: t => let '(b1, r, _) := bstep g cap b e in
+              let '(b2, r2) := brun g cap b1 t in (b2, r ++ r2)
+  end.
+
+(* the events the loop really took *)
+Fixpoint taken (g : gcfg) (cap : nat) (b : bst) (es : list bev) : list ev :=
+  match es with
+  | [] => []
+  | e :: t =>
+      let b1 := fst (fst (bstep g cap b e)) in
+      match e, b_back b with
+      | BEv e', [] => e' :: taken g cap b1 t
+      | _, _ => taken g cap b1 t
+      end
+  end.
+
+Definition b0 (m : list (N * N)) : bst := mkB (st0 m) [] [].
